@@ -42,10 +42,13 @@ pub fn build(c: &Case) -> Built {
         4 => vec![EC_DEPTH, EC_ALPHA],
         _ => vec![EC_ALPHA, EC_ALPHA],
     };
-    let float = c.depth == 32;
+    // depth 32 = f32 samples, 17 = f16 samples (16 bits, 5 exponent bits); both with negative values
+    let float = c.depth == 32 || c.depth == 17;
     let mut img = ImageHeader::simple(c.w as u32, c.h as u32, grey, if float { 8 } else { c.depth });
-    if float {
+    if c.depth == 32 {
         img.bit_depth = BitDepth::float(32, 8);
+    } else if c.depth == 17 {
+        img.bit_depth = BitDepth::float(16, 5);
     }
     img.modular_16bit_buffers = !float && c.depth <= 12;
     img.extra_fields = true;
@@ -63,8 +66,17 @@ pub fn build(c: &Case) -> Built {
     for ci in 0..nch {
         let b = bits[ci];
         let ch = if b == 32 {
-            // distinct finite floats in [0, 1): bit patterns of k / 64
-            Channel::from_fn(c.w, c.h, |x, y| (((ci * 17 + y * c.w + x) % 61) as f32 / 64.0).to_bits() as i32)
+            // distinct finite floats in (-1, 1): bit patterns of k / 64, every third one negative
+            Channel::from_fn(c.w, c.h, |x, y| {
+                let k = (ci * 17 + y * c.w + x) % 61;
+                (if k % 3 == 1 { -(k as f32) / 64.0 } else { k as f32 / 64.0 }).to_bits() as i32
+            })
+        } else if b == 17 {
+            // f16 bit patterns of k / 64 (exact in binary16), every third one negative
+            Channel::from_fn(c.w, c.h, |x, y| {
+                let k = (ci * 17 + y * c.w + x) % 61;
+                f16_bits(if k % 3 == 1 { -(k as f32) / 64.0 } else { k as f32 / 64.0 }) as i32
+            })
         } else {
             let maxv = (1i64 << b) - 1;
             Channel::from_fn(c.w, c.h, |x, y| {
@@ -83,16 +95,39 @@ pub fn build(c: &Case) -> Built {
                 }) as i32
             })
         };
-        truth.push(if b == 32 { ch.data.iter().map(|&v| f32::from_bits(v as u32) as f64).collect() } else { ch.data.iter().map(|&v| v as f64 / ((1i64 << b) - 1) as f64).collect() });
+        truth.push(if b == 32 {
+            ch.data.iter().map(|&v| f32::from_bits(v as u32) as f64).collect()
+        } else if b == 17 {
+            ch.data.iter().map(|&v| f16_value(v as u16)).collect()
+        } else { ch.data.iter().map(|&v| v as f64 / ((1i64 << b) - 1) as f64).collect() });
         ints.push(ch.data.clone());
         chans.push(ch);
     }
     let mut spec = ModularFrameSpec::new(FrameHeader::modular_lossless(&img), chans);
-    spec.tree = Node::leaf(5);
+    // (bit patterns of negative floats are huge integers: no prediction, so that residuals stay in range)
+    spec.tree = Node::leaf(if float { 0 } else { 5 });
     let f = write_modular_frame(&img, &spec);
     let bytes = write_codestream(&img, &Sel::default(), &[f.bytes]);
     let alpha_idx = ecs.iter().position(|&t| t == EC_ALPHA).map(|i| n_colour + i);
     Built { bytes, truth, ints, n_colour, alpha_idx, bits }
+}
+
+/// binary16 bit pattern of a value that is exactly representable as a normal binary16 number (or zero).
+fn f16_bits(v: f32) -> u16 {
+    if v == 0.0 {
+        return if v.is_sign_negative() { 0x8000 } else { 0 };
+    }
+    let b = v.to_bits();
+    let sign = ((b >> 31) as u16) << 15;
+    let e = ((b >> 23) & 0xff) as i32 - 127 + 15;
+    assert!(e > 0 && e < 31 && b & 0x1fff == 0, "not a normal binary16 value");
+    sign | ((e as u16) << 10) | ((b >> 13) & 0x3ff) as u16
+}
+
+fn f16_value(h: u16) -> f64 {
+    let sign = if h & 0x8000 != 0 { -1.0 } else { 1.0 };
+    let (e, m) = (((h >> 10) & 0x1f) as i32, (h & 0x3ff) as f64);
+    sign * if e == 0 { m / 1024.0 * 2f64.powi(-14) } else { (1.0 + m / 1024.0) * 2f64.powi(e - 15) }
 }
 
 /// stored coordinates for oriented output coordinate (x, y); (sw, sh) = stored dims
@@ -290,7 +325,7 @@ pub fn cases(quick: bool) -> Vec<Case> {
     let mut out = vec![];
     for &(w, h) in &sizes {
         for layout in 0..6u32 {
-            for depth in [5u32, 8, 12, 16, 32] {
+            for depth in [5u32, 8, 12, 16, 32, 17] {
                 for o in 1..=8u32 {
                     if quick && w * h > 6 && !(depth == 8 || depth == 16) && layout != 4 {
                         continue;
@@ -376,7 +411,7 @@ pub fn main(args: &crate::Args) {
             Err(p) => rep.violation("cmyk-panic", &p, &json!({"file": "cmyk_layers.jxl"})),
         }
     }
-    rep.rule = "FULL PRODUCT of image sizes (w 1..4 x h 1..3, 5x2; thorough adds 2x5, 6x4, 9x2) x 6 channel layouts (Gray, GrayA, RGB, RGBA, RGB+depth+alpha, RGB+2 alphas) x sample depths {5, 8, 12, 16, f32} x orientations 1..8 x EVERY crop rectangle in oriented coordinates (plus no region) x outputs {image_all_channels, image_planar, stream, stream_no_alpha} x sample types {f32, u16, u8} x write-buffer sizes {1, 3, exact, oversized}; every image has a distinct value in every sample; oracle: EXIF coordinate maps, v/(2^bits-1), clamp(floor(f*max+0.5)), exact integers when depths match; plus channel order C,M,Y,K,A on cmyk_layers.jxl. Each case = one image; sample comparisons are counted separately.".into();
+    rep.rule = "FULL PRODUCT of image sizes (w 1..4 x h 1..3, 5x2; thorough adds 2x5, 6x4, 9x2) x 6 channel layouts (Gray, GrayA, RGB, RGBA, RGB+depth+alpha, RGB+2 alphas) x sample depths {5, 8, 12, 16, f32, f16; the float ones with negative samples} x orientations 1..8 x EVERY crop rectangle in oriented coordinates (plus no region) x outputs {image_all_channels, image_planar, stream, stream_no_alpha} x sample types {f32, u16, u8} x write-buffer sizes {1, 3, exact, oversized}; every image has a distinct value in every sample; oracle: EXIF coordinate maps, v/(2^bits-1), clamp(floor(f*max+0.5)), exact integers when depths match; plus channel order C,M,Y,K,A on cmyk_layers.jxl. Each case = one image; sample comparisons are counted separately.".into();
     rep.extra.insert("sample_comparisons".into(), json!(sample_checks));
     rep.sample(json!({"case": format!("{:?}", cs[cs.len() / 2]), "stream_hex": hex(&build(&cs[cs.len() / 2]).bytes)}));
     rep.sample(json!({"case": format!("{:?}", cs[cs.len() - 1])}));
